@@ -186,6 +186,28 @@ def fiber_fs(sk, s, *xs):
     return wf(r, 1) >= 0 and wf(f2, 1) >= 0
 
 
+def fiber_grow(sk, s, w, *xs):
+    """a fiber without a declared shape: scalar addition covers its *current* extent, also after the fiber grew between two additions"""
+    n, far = sk["n"], sk["far"]
+    fc, fv = list(xs[:n]), list(xs[n:2 * n])
+    f = Fiber(fc, fv)
+    r1 = f + s
+    ext1 = (fc[-1] + 1) if n else 0
+    if _dense(r1, far + 1)[:ext1] != [v + s for v in _dense(f, far + 1)[:ext1]]:
+        return fail("f + s before growing")
+    f += Fiber([far], [w])
+    d1 = _dense(f, far + 1)
+    ext2 = far + 1 if w != 0 or True else ext1
+    r2 = f + s
+    want = [v + s for v in d1]
+    if _dense(r2, far + 1) != want:
+        return fail("after the fiber grew to coordinate %d, f + s = %r, expected %r over the whole current shape" % (far, _dense(r2, far + 1), want))
+    f += s
+    if _dense(f, far + 1) != want:
+        return fail("f += s after growing differs from f + s")
+    return True
+
+
 def obligations(tier):
     q = tier == "quick"
     obs = []
@@ -212,6 +234,9 @@ def obligations(tier):
                 continue
             pre = []
             obs.append(Ob("inplace/%s/%s" % (op, k), "box_inplace", dict(op=op, kinds=k), ["a", "b"], pre))
+    for n in (1, 2):
+        fn = names("f", n)
+        obs.append(Ob("fiber/adds-grow/%d" % n, "fiber_grow", dict(n=n, far=4), ["s", "w"] + fn + names("u", n), chain_pre(fn) + bound_pre(fn, 0, 3) + ["w != 0"]))
     N = 2 if q else 3
     for nf in range(N + 1):
         for ng in range(N + 1):
